@@ -457,3 +457,427 @@ Proof.
   apply IH. unfold add_entry. destruct (comm_eqb (e_src e) (pc (e_pr e))); [exact H|].
   apply wf_add_price. exact H.
 Qed.
+
+(* ------------------------------------------------------------------ paths *)
+(* a simple path cur -> tgt through pairs that have a price point at D, avoiding `vis` *)
+Inductive spath (g : graph) (D : Z) : list comm -> comm -> comm -> list step -> Prop :=
+| sp_nil : forall vis c, spath g D vis c c []
+| sp_cons : forall vis cur nxt tgt pt rest,
+    cur <> tgt ->
+    edge_point g cur nxt D = Some pt ->
+    ~ In nxt (cur :: vis) ->
+    spath g D (cur :: vis) nxt tgt rest ->
+    spath g D vis cur tgt (mkStep cur nxt pt :: rest).
+
+Lemma other_end_joins e c n : other_end e c = Some n -> joins e c n = true.
+Proof.
+  unfold other_end, joins. ceq (ea e) c.
+  - intros H. injection H as <-. apply pair_eqb_spec. auto.
+  - ceq (eb e) c; [|discriminate]. intros H. injection H as <-. apply pair_eqb_spec. auto.
+Qed.
+
+Lemma joins_other_end e c n : joins e c n = true -> other_end e c = Some n.
+Proof.
+  unfold other_end, joins. intros H. apply pair_eqb_spec in H.
+  ceq (ea e) c.
+  - destruct H as [[_ H]|[H1 H2]]; congruence.
+  - ceq (eb e) c.
+    + destruct H as [[H _]|[H _]]; congruence.
+    + destruct H as [[H _]|[_ H]]; congruence.
+Qed.
+
+Lemma edge_point_edge g a b D pt :
+  edge_point g a b D = Some pt ->
+  exists e, In e g /\ other_end e a = Some b /\ pm_recent (em e) D = Some pt.
+Proof.
+  unfold edge_point, edge_map. destruct (find_edge g a b) as [e|] eqn:F; [|discriminate].
+  intros H. apply find_edge_some in F as [Hin J]. exists e. repeat split; try assumption.
+  apply joins_other_end. exact J.
+Qed.
+
+Lemma edge_edge_point g a b D e pt :
+  wf g -> In e g -> other_end e a = Some b -> pm_recent (em e) D = Some pt ->
+  edge_point g a b D = Some pt.
+Proof.
+  intros W Hin O R. unfold edge_point, edge_map.
+  rewrite (find_edge_wf g e a b W Hin (other_end_joins _ _ _ O)). exact R.
+Qed.
+
+Lemma paths_sound g D : wf g -> forall fuel vis cur tgt p,
+  In p (paths fuel g D vis cur tgt) -> spath g D vis cur tgt p.
+Proof.
+  intros W. induction fuel as [|f IH]; intros vis cur tgt p; cbn [paths].
+  - ceq cur tgt; [|intros []]. intros [<-|[]]. subst. constructor.
+  - ceq cur tgt; [intros [<-|[]]; subst; constructor|].
+    rewrite in_flat_map. intros (e & Hin & Hp).
+    destruct (other_end e cur) as [nxt|] eqn:O; [|destruct Hp].
+    destruct (pm_recent (em e) D) as [pt|] eqn:R; [|destruct Hp].
+    destruct (mem nxt (cur :: vis)) eqn:M; [destruct Hp|].
+    apply in_map_iff in Hp as (rest & <- & Hrest).
+    constructor.
+    + exact E.
+    + apply (edge_edge_point g cur nxt D e pt W Hin O R).
+    + apply mem_false. exact M.
+    + apply IH. exact Hrest.
+Qed.
+
+Lemma paths_complete g D vis cur tgt p :
+  spath g D vis cur tgt p -> forall fuel, (length p <= fuel)%nat ->
+  In p (paths fuel g D vis cur tgt).
+Proof.
+  induction 1 as [vis c|vis cur nxt tgt pt rest Hne Hpt Hvis Hrest IH]; intros fuel Hlen.
+  - destruct fuel; cbn [paths]; rewrite comm_eqb_refl; left; reflexivity.
+  - destruct fuel as [|f]; [cbn in Hlen; lia|]. cbn [paths].
+    ceq cur tgt; [contradiction|].
+    destruct (edge_point_edge _ _ _ _ _ Hpt) as (e & Hin & O & R).
+    apply in_flat_map. exists e. split; [exact Hin|].
+    rewrite O, R. apply mem_false in Hvis. rewrite Hvis.
+    apply in_map. apply IH. cbn in Hlen. lia.
+Qed.
+
+Definition verts (g : graph) : list comm := flat_map (fun e => [ea e; eb e]) g.
+
+Lemma verts_length g : length (verts g) = (2 * length g)%nat.
+Proof. induction g as [|e g IH]; cbn; [reflexivity|]. unfold verts in IH. rewrite IH. lia. Qed.
+
+Lemma spath_tos g D vis cur tgt p :
+  spath g D vis cur tgt p ->
+  NoDup (map s_to p) /\ (forall c, In c (map s_to p) -> ~ In c (cur :: vis)) /\
+  incl (map s_to p) (verts g).
+Proof.
+  induction 1 as [vis c|vis cur nxt tgt pt rest Hne Hpt Hvis Hrest IH].
+  - cbn. repeat split; [constructor | intros ? [] | intros ? []].
+  - destruct IH as (ND & Hfresh & Hincl). cbn [map s_to]. repeat split.
+    + constructor; [|exact ND]. intros Hin. apply (Hfresh _ Hin). left. reflexivity.
+    + intros c [<-|Hin]; [exact Hvis|]. intros Hc. apply (Hfresh _ Hin). right. exact Hc.
+    + intros c [<-|Hin]; [|apply Hincl; exact Hin].
+      destruct (edge_point_edge _ _ _ _ _ Hpt) as (e & Hin & O & _).
+      unfold verts. apply in_flat_map. exists e. split; [exact Hin|].
+      unfold other_end in O. ceq (ea e) cur.
+      * injection O as <-. right. left. reflexivity.
+      * ceq (eb e) cur; [|discriminate]. injection O as <-. left. reflexivity.
+Qed.
+
+Lemma spath_length g D vis cur tgt p :
+  spath g D vis cur tgt p -> (length p <= 2 * length g)%nat.
+Proof.
+  intros H. destruct (spath_tos _ _ _ _ _ _ H) as (ND & _ & Hincl).
+  rewrite <- verts_length, <- (map_length s_to p). apply NoDup_incl_length; assumption.
+Qed.
+
+Lemma spath_ext g g' D :
+  (forall a b, edge_point g a b D = edge_point g' a b D) ->
+  forall vis cur tgt p, spath g D vis cur tgt p -> spath g' D vis cur tgt p.
+Proof.
+  intros Hext vis cur tgt p H. induction H; constructor; try assumption.
+  rewrite <- Hext. assumption.
+Qed.
+
+(* the rate along a path: the product of the factors *)
+Definition path_product (p : list step) : Q :=
+  fold_right (fun s acc => (factor s * acc)%Q) 1%Q p.
+
+Lemma path_q_cons s p : path_q (s :: p) = (path_q p * factor s)%Q.
+Proof. unfold path_q. cbn [rev]. rewrite fold_left_app. reflexivity. Qed.
+
+Lemma path_product_cons s p : path_product (s :: p) = (factor s * path_product p)%Q.
+Proof. reflexivity. Qed.
+
+Lemma path_q_product p : (path_q p == path_product p)%Q.
+Proof.
+  induction p as [|s p IH]; [reflexivity|].
+  rewrite path_q_cons, path_product_cons, IH. apply Qmult_comm.
+Qed.
+
+Local Opaque Qred.
+
+(* ------------------------------------------------------------------ find_price *)
+Definition at_most_one_path (g : graph) (D : Z) (s t : comm) : Prop :=
+  forall p q, spath g D [] s t p -> spath g D [] s t q -> p = q.
+
+Lemma find_price_path g D s t p :
+  wf g -> s <> t -> spath g D [] s t p -> at_most_one_path g D s t ->
+  find_price g s t D = Some (mkPrice (Qred (path_q p)) t).
+Proof.
+  intros W Hne Hp U. unfold find_price. apply comm_eqb_false in Hne. rewrite Hne.
+  pose proof (paths_complete _ _ _ _ _ _ Hp _ (spath_length _ _ _ _ _ _ Hp)) as Hin.
+  destruct (paths (2 * length g) g D [] s t) as [|q l] eqn:L; [destruct Hin|].
+  assert (Hq : spath g D [] s t q).
+  { apply (paths_sound g D W (2 * length g)%nat). rewrite L. left. reflexivity. }
+  rewrite (U _ _ Hq Hp). reflexivity.
+Qed.
+
+Lemma find_price_none g D s t :
+  wf g -> (find_price g s t D = None <-> s = t \/ forall p, ~ spath g D [] s t p).
+Proof.
+  intros W. unfold find_price. ceq s t.
+  - split; [intros _; left; exact E | reflexivity].
+  - destruct (paths (2 * length g) g D [] s t) as [|q l] eqn:L.
+    + split; [|reflexivity]. intros _. right. intros p Hp.
+      pose proof (paths_complete _ _ _ _ _ _ Hp _ (spath_length _ _ _ _ _ _ Hp)) as Hin.
+      rewrite L in Hin. destruct Hin.
+    + split; [discriminate|]. intros [H|H]; [contradiction|]. exfalso. apply (H q).
+      apply (paths_sound g D W (2 * length g)%nat). rewrite L. left. reflexivity.
+Qed.
+
+Lemma find_price_some g D s t pr :
+  wf g -> find_price g s t D = Some pr ->
+  s <> t /\ exists p, spath g D [] s t p /\ pr = mkPrice (Qred (path_q p)) t.
+Proof.
+  intros W. unfold find_price. ceq s t; [discriminate|].
+  destruct (paths (2 * length g) g D [] s t) as [|q l] eqn:L; [discriminate|].
+  intros H. injection H as <-. split; [exact E|]. exists q. split; [|reflexivity].
+  apply (paths_sound g D W (2 * length g)%nat). rewrite L. left. reflexivity.
+Qed.
+
+Lemma find_price_ext g g' D s t :
+  wf g -> wf g' ->
+  (forall a b, edge_point g a b D = edge_point g' a b D) ->
+  at_most_one_path g D s t ->
+  find_price g s t D = find_price g' s t D.
+Proof.
+  intros W W' Hext U.
+  assert (Hext' : forall a b, edge_point g' a b D = edge_point g a b D) by (intros; symmetry; apply Hext).
+  destruct (find_price g s t D) as [pr|] eqn:F.
+  - destruct (find_price_some _ _ _ _ _ W F) as (Hne & p & Hp & ->).
+    symmetry. apply find_price_path; [exact W' | exact Hne | apply (spath_ext g g' D Hext); exact Hp |].
+    intros a b Ha Hb. apply U; apply (spath_ext g' g D Hext'); assumption.
+  - apply (find_price_none _ _ _ _ W) in F. symmetry. apply (find_price_none _ _ _ _ W').
+    destruct F as [F|F]; [left; exact F | right].
+    intros p Hp. apply (F p). apply (spath_ext g' g D Hext'). exact Hp.
+Qed.
+
+Lemma find_price_future h h' D s t :
+  filter (entry_not_after D) h = filter (entry_not_after D) h' ->
+  at_most_one_path (build h) D s t ->
+  find_price (build h) s t D = find_price (build h') s t D.
+Proof.
+  intros H U. apply find_price_ext; [apply wf_build | apply wf_build | | exact U].
+  intros a b. apply edge_point_future. exact H.
+Qed.
+
+(* single edges *)
+Lemma spath_single g D s t pt :
+  s <> t -> edge_point g s t D = Some pt -> spath g D [] s t [mkStep s t pt].
+Proof.
+  intros Hne H. constructor; [exact Hne | exact H | | constructor].
+  intros [Hc|[]]. congruence.
+Qed.
+
+Lemma path_q_single s t w p : (path_q [mkStep s t (w, p)] == if comm_eqb (pc p) t then pq p else / pq p)%Q.
+Proof.
+  unfold path_q. cbn [rev app fold_left]. unfold factor. cbn [s_pt s_to snd].
+  destruct (comm_eqb (pc p) t); apply Qmult_1_l.
+Qed.
+
+(* ------------------------------------------------------------------ value *)
+Lemma value_X_spec g prim a t D :
+  value g prim a (Some t) D =
+  if comm_eqb (hc a) t then Some (Qred (hq a), t)
+  else match find_price g (hc a) t D with
+       | Some p => Some (Qred (pq p * hq a), pc p)
+       | None => None
+       end.
+Proof. reflexivity. Qed.
+
+Lemma value_exact g prim a t D q c :
+  hc a <> t -> value g prim a (Some t) D = Some (q, c) ->
+  exists p, find_price g (hc a) t D = Some p /\ c = pc p /\ (q == pq p * hq a)%Q.
+Proof.
+  intros Hne. rewrite value_X_spec. apply comm_eqb_false in Hne. rewrite Hne.
+  destruct (find_price g (hc a) t D) as [p|]; [|discriminate].
+  intros H. injection H as <- <-. exists p. repeat split. apply Qred_correct.
+Qed.
+
+Lemma find_price_comm g s t D p : find_price g s t D = Some p -> pc p = t.
+Proof.
+  unfold find_price. destruct (comm_eqb s t); [discriminate|].
+  destruct (paths _ _ _ _ _ _); [discriminate|]. intros H. injection H as <-. reflexivity.
+Qed.
+
+Lemma convert_unpriced g prim a t D :
+  hc a <> t -> find_price g (hc a) t D = None ->
+  convert g prim a (Some t) D = (Qred (hq a), hc a).
+Proof.
+  intros Hne F. unfold convert. rewrite value_X_spec. apply comm_eqb_false in Hne.
+  rewrite Hne, F. reflexivity.
+Qed.
+
+Lemma convert_priced g prim a t D p :
+  hc a <> t -> find_price g (hc a) t D = Some p ->
+  snd (convert g prim a (Some t) D) = t /\ (fst (convert g prim a (Some t) D) == pq p * hq a)%Q.
+Proof.
+  intros Hne F. unfold convert. rewrite value_X_spec. pose proof (find_price_comm _ _ _ _ _ F) as C.
+  apply comm_eqb_false in Hne. rewrite Hne, F. cbn [fst snd]. split; [exact C | apply Qred_correct].
+Qed.
+
+Lemma convert_same g prim a D :
+  convert g prim a (Some (hc a)) D = (Qred (hq a), hc a).
+Proof. unfold convert. rewrite value_X_spec, comm_eqb_refl. reflexivity. Qed.
+
+(* ------------------------------------------------------------------ -V: the nearest price *)
+Lemma nearest_spec g src D best w p o :
+  nearest g src D best = Some (w, p, o) ->
+  best = Some (w, p, o) \/
+  exists e, In e g /\ other_end e src = Some o /\ pm_recent (em e) D = Some (w, p).
+Proof.
+  revert best. induction g as [|e g IH]; intros best; cbn [nearest].
+  - intros H. left. exact H.
+  - destruct (other_end e src) as [o'|] eqn:O.
+    + destruct (pm_recent (em e) D) as [[w' p']|] eqn:R.
+      * intros H. apply IH in H as [H|(e0 & H0 & H1 & H2)].
+        -- destruct best as [[[w0 p0] o0]|].
+           ++ destruct (w0 <? w').
+              ** injection H as <- <- <-. right. exists e. repeat split; [left; reflexivity | exact O | exact R].
+              ** left. exact H.
+           ++ injection H as <- <- <-. right. exists e. repeat split; [left; reflexivity | exact O | exact R].
+        -- right. exists e0. repeat split; [right; exact H0 | exact H1 | exact H2].
+      * intros H. apply IH in H as [H|(e0 & H0 & H1 & H2)]; [left; exact H|].
+        right. exists e0. repeat split; [right; exact H0 | exact H1 | exact H2].
+    + intros H. apply IH in H as [H|(e0 & H0 & H1 & H2)]; [left; exact H|].
+      right. exists e0. repeat split; [right; exact H0 | exact H1 | exact H2].
+Qed.
+
+Lemma nearest_max g src D best w p o :
+  nearest g src D best = Some (w, p, o) ->
+  (forall w0 p0 o0, best = Some (w0, p0, o0) -> w0 <= w) /\
+  (forall e o' w' p', In e g -> other_end e src = Some o' -> pm_recent (em e) D = Some (w', p') -> w' <= w).
+Proof.
+  revert best. induction g as [|e g IH]; intros best; cbn [nearest].
+  - intros ->. split; [intros ? ? ? H; injection H as -> _ _; lia | intros ? ? ? ? []].
+  - destruct (other_end e src) as [o1|] eqn:O.
+    + destruct (pm_recent (em e) D) as [[w1 p1]|] eqn:R.
+      * intros H. apply IH in H as [H1 H2]. split.
+        -- intros w0 p0 o0 ->. destruct (w0 <? w1) eqn:E.
+           ++ apply Z.ltb_lt in E. specialize (H1 _ _ _ eq_refl). lia.
+           ++ apply (H1 _ _ _ eq_refl).
+        -- intros e' o' w' p' [<-|Hin] O' R'.
+           ++ rewrite O in O'. rewrite R in R'. injection R' as <- <-.
+              destruct best as [[[w0 p0] o0]|].
+              ** destruct (w0 <? w1) eqn:E.
+                 --- apply (H1 _ _ _ eq_refl).
+                 --- apply Z.ltb_ge in E. specialize (H1 _ _ _ eq_refl). lia.
+              ** apply (H1 _ _ _ eq_refl).
+           ++ apply (H2 _ _ _ _ Hin O' R').
+      * intros H. apply IH in H as [H1 H2]. split; [exact H1|].
+        intros e' o' w' p' [<-|Hin] O' R'; [congruence | apply (H2 _ _ _ _ Hin O' R')].
+    + intros H. apply IH in H as [H1 H2]. split; [exact H1|].
+      intros e' o' w' p' [<-|Hin] O' R'; [congruence | apply (H2 _ _ _ _ Hin O' R')].
+Qed.
+
+(* ------------------------------------------------------------------ the memo *)
+Definition memo_ok (s : pstate) : Prop :=
+  forall owner D t r, memo_find (st_memo s) owner (D, t) = Some r ->
+                      r = find_price (st_graph s) owner t D.
+
+Lemma st_find_ok s a b D :
+  memo_ok s ->
+  fst (st_find s a b D) = find_price (st_graph s) a b D /\
+  st_graph (snd (st_find s a b D)) = st_graph s /\ memo_ok (snd (st_find s a b D)).
+Proof.
+  intros Hok. unfold st_find. ceq a b.
+  - cbn [fst snd]. repeat split; [|exact Hok]. unfold find_price. subst.
+    rewrite comm_eqb_refl. reflexivity.
+  - destruct (memo_find (st_memo s) a (D, b)) as [r|] eqn:M; cbn [fst snd].
+    + repeat split; [apply Hok; exact M | exact Hok].
+    + repeat split. intros owner D' t r. cbn [st_memo st_graph memo_find fst snd].
+      destruct (comm_eqb a owner && (D =? D') && comm_eqb b t) eqn:K.
+      * apply andb_true_iff in K as [K K3]. apply andb_true_iff in K as [K1 K2].
+        apply comm_eqb_spec in K1. apply comm_eqb_spec in K3. apply Z.eqb_eq in K2. subst.
+        intros H. injection H as <-. reflexivity.
+      * apply Hok.
+Qed.
+
+Fixpoint only_finds (ops : list op) : Prop :=
+  match ops with
+  | [] => True
+  | OAdd _ :: _ => False
+  | OFind _ _ _ :: r => only_finds r
+  end.
+
+Lemma run_finds s ops :
+  memo_ok s -> only_finds ops -> fst (run_ops s ops) = plain_ops (st_graph s) ops.
+Proof.
+  revert s. induction ops as [|o ops IH]; intros s Hok Hf; [reflexivity|].
+  destruct o as [e|a b D]; [destruct Hf|]. cbn [run_ops plain_ops only_finds] in *.
+  destruct (st_find_ok s a b D Hok) as (H1 & H2 & H3).
+  destruct (st_find s a b D) as [x s'] eqn:F. cbn [fst snd] in *.
+  specialize (IH s' H3 Hf). destruct (run_ops s' ops) as [xs s''] eqn:R. cbn [fst] in *.
+  rewrite H1, IH, H2. reflexivity.
+Qed.
+
+Lemma memo_clear_nil owner : memo_clear [] owner = [].
+Proof. reflexivity. Qed.
+
+Lemma run_adds_then_finds adds finds g :
+  only_finds finds ->
+  fst (run_ops (mkState g []) (map OAdd adds ++ finds)) = plain_ops g (map OAdd adds ++ finds).
+Proof.
+  intros Hf. revert g. induction adds as [|e adds IH]; intros g; cbn [map app].
+  - apply run_finds; [|exact Hf]. intros owner D t r. cbn. discriminate.
+  - cbn [run_ops plain_ops]. unfold st_add. cbn [st_graph st_memo]. rewrite memo_clear_nil. apply IH.
+Qed.
+
+(* ------------------------------------------------------------------ assembled statements *)
+Lemma spath_steps g D vis cur tgt p :
+  spath g D vis cur tgt p ->
+  Forall (fun s => edge_point g (s_from s) (s_to s) D = Some (s_pt s)) p.
+Proof.
+  induction 1; constructor; [cbn; assumption | assumption].
+Qed.
+
+Lemma at_most_one_by_enumeration g D s t :
+  wf g -> (length (paths (2 * length g) g D [] s t) <= 1)%nat -> at_most_one_path g D s t.
+Proof.
+  intros W L p q Hp Hq.
+  pose proof (paths_complete _ _ _ _ _ _ Hp _ (spath_length _ _ _ _ _ _ Hp)) as Ip.
+  pose proof (paths_complete _ _ _ _ _ _ Hq _ (spath_length _ _ _ _ _ _ Hq)) as Iq.
+  destruct (paths (2 * length g) g D [] s t) as [|x [|y l]]; cbn in L; try lia.
+  - destruct Ip.
+  - destruct Ip as [<-|[]], Iq as [<-|[]]. reflexivity.
+Qed.
+
+Lemma chain_product h D s t p :
+  s <> t -> spath (build h) D [] s t p -> at_most_one_path (build h) D s t ->
+  exists r, find_price (build h) s t D = Some r /\ pc r = t /\ (pq r == path_product p)%Q.
+Proof.
+  intros Hne Hp U. exists (mkPrice (Qred (path_q p)) t). split; [|split].
+  - apply find_price_path; [apply wf_build | assumption..].
+  - reflexivity.
+  - cbn [pq]. rewrite Qred_correct. apply path_q_product.
+Qed.
+
+Lemma direct_quote h D s t w p :
+  s <> t -> edge_point (build h) s t D = Some (w, p) -> pc p = t ->
+  at_most_one_path (build h) D s t ->
+  exists r, find_price (build h) s t D = Some r /\ pc r = t /\ (pq r == pq p)%Q.
+Proof.
+  intros Hne He Hc U.
+  destruct (chain_product h D s t _ Hne (spath_single _ _ _ _ _ Hne He) U) as (r & H1 & H2 & H3).
+  exists r. repeat split; [exact H1 | exact H2 |]. rewrite H3.
+  unfold path_product, factor. cbn [fold_right s_pt s_to snd]. subst t. rewrite comm_eqb_refl.
+  apply Qmult_1_r.
+Qed.
+
+Lemma reverse_quote h D s t w p :
+  s <> t -> edge_point (build h) s t D = Some (w, p) -> pc p = s ->
+  at_most_one_path (build h) D s t ->
+  exists r, find_price (build h) s t D = Some r /\ pc r = t /\ (pq r == / pq p)%Q.
+Proof.
+  intros Hne He Hc U.
+  destruct (chain_product h D s t _ Hne (spath_single _ _ _ _ _ Hne He) U) as (r & H1 & H2 & H3).
+  exists r. repeat split; [exact H1 | exact H2 |]. rewrite H3.
+  unfold path_product, factor. cbn [fold_right s_pt s_to snd]. rewrite Hc.
+  apply comm_eqb_false in Hne. rewrite Hne. apply Qmult_1_r.
+Qed.
+
+Lemma nearest_most_recent g src D w p o :
+  nearest g src D None = Some (w, p, o) ->
+  (exists e, In e g /\ other_end e src = Some o /\ pm_recent (em e) D = Some (w, p)) /\
+  (forall e o' w' p', In e g -> other_end e src = Some o' ->
+                      pm_recent (em e) D = Some (w', p') -> w' <= w).
+Proof.
+  intros H. split.
+  - destruct (nearest_spec _ _ _ _ _ _ _ H) as [H'|H']; [discriminate | exact H'].
+  - apply (nearest_max _ _ _ _ _ _ _ H).
+Qed.
